@@ -5,6 +5,7 @@ pub(crate) mod c01;
 pub(crate) mod c02;
 pub(crate) mod c03;
 pub(crate) mod c07;
+pub(crate) mod c09;
 pub(crate) mod c10;
 pub(crate) mod c13;
 pub(crate) mod c14;
@@ -32,6 +33,7 @@ pub(crate) fn run(id: &str, opts: &Opts) -> Option<i32> {
         "C02" => c02::run(opts, &mut report),
         "C03" => c03::run(opts, &mut report),
         "C07" => c07::run(opts, &mut report),
+        "C09" => c09::run(opts, &mut report),
         "C10" => c10::run(opts, &mut report),
         "C13" => c13::run(opts, &mut report),
         "C14" => c14::run(opts, &mut report),
